@@ -26,7 +26,9 @@ def err_of(exc):
                      (IndexError, 'EIndex'), (TypeError, 'EType'), (ValueError, 'EValue')):
         if isinstance(exc, cls):
             return tag
-    return 'EOther'
+    if isinstance(exc, (ZeroDivisionError, OverflowError, FloatingPointError)) or type(exc) is Exception:
+        return 'EOther'            # the classes the models map to EOther
+    return 'EUnexpected_' + type(exc).__name__      # not an `err` constructor: the comparison fails loudly
 
 
 def fr(x):
@@ -136,3 +138,39 @@ def rand_spec(rng, kind=None, bits=None, level=None, named=None, like=None):
     else:
         spec['cnt'] = {i: Fraction(rng.choice([1, 2, 3, 5, 9, 250]), rng.choice([1, 1, 2, 4, 8])) for i in idx}
     return spec
+
+
+# --------------------------------------------------------------------------- replay support (specs as JSON)
+def spec_to_json(spec):
+    d = {k: v for k, v in spec.items() if k not in ('cnt',)}
+    if 'cnt' in spec:
+        d['cnt'] = [[int(k), str(Fraction(v))] for k, v in sorted(spec['cnt'].items())]
+    return d
+
+
+def spec_from_json(d):
+    spec = {k: v for k, v in d.items() if k != 'cnt'}
+    if 'cnt' in d:
+        spec['cnt'] = {int(k): (Fraction(v) if spec['kind'] == 'KFloat' else int(Fraction(v))) for k, v in d['cnt']}
+    return spec
+
+
+def finish_replay(ctx, path, what):
+    """Common end of a replay: prints the outcome; exit status 1 with a VIOLATION line if the recorded case still fails."""
+    import shutil
+    seen = set()
+    for f, w in ctx.known_hits:
+        if f['id'] not in seen:
+            seen.add(f['id'])
+            print('KNOWN-FINDING: property=%s %s [%s]' % (ctx.pid, f.get('what', w), f['id']))
+    shutil.rmtree(ctx.workdir, ignore_errors=True)
+    if ctx.violations:
+        print('VIOLATION property=%s replay=%s' % (ctx.pid, path))
+        for v in ctx.violations[:5]:
+            print('  ' + v['what'][:300].replace('\n', ' '))
+            if 'model_output' in v.get('payload', {}):
+                print('  model: ' + str(v['payload']['model_output'])[-600:].replace('\n', ' '))
+        return 1
+    print('replay %s: %s - the recorded case no longer fails (%d evaluation(s), %d known finding(s) reproduced)'
+          % (path, what, ctx.coverage['evaluations'], len(seen)))
+    return 0
